@@ -34,7 +34,9 @@ func init() {
 			func(tier string) []string {
 				cls := "[0-9A-Za-z._+~^]"
 				out := []string{"{d}" + rep(cls, 1), "{d}" + rep(cls, 2), "{d}" + rep(cls, 3), "{d}:{d}" + rep(cls, 2), "{d}" + rep(cls, 1) + "-" + rep(cls, 1), "{d}.{d}-{d}", "{d}.{d}", "{l}{d}", "{d}.{d}{l}", "{d}.{d}.{d}",
-					"{d}" + rep("d", 20), rep("d", 20), "0" + rep("d", 3), "{d}.{d}^{l}{d}", "{d}.{d}~{l}{d}", "{d}..{d}"}
+					"{d}" + rep("d", 20), rep("d", 20), "0" + rep("d", 3), "{d}.{d}^{l}{d}", "{d}.{d}~{l}{d}", "{d}..{d}",
+					// epochs with two digits and with leading zeros (decimal, never octal)
+					"{d}{d}:{d}.{d}", "0{d}{d}:{d}.{d}", "0:{d}.{d}-{d}"}
 				if tier == "thorough" {
 					out = append(out, "{d}"+rep(cls, 4), "{d}"+rep(cls, 2)+"-"+rep(cls, 2), "{d}"+rep("d", 21))
 				}
